@@ -28,7 +28,7 @@ ASSUMPTIONS = [
     "detectPitchErrors: a pair exactly on the threshold (within 1e-12 relative) may be classified either way",
     "z-normalisation needs >=2 distinct values; windowed z-normalisation is only checked for length and position of zeros",
 ]
-REQUIRED_CLASSES = ["median_grid:edge_padding", "median_grid:no_padding_edge_untouched", "pitch_measures:zero_filtered",
+REQUIRED_CLASSES = ["pitch_measures:constant_track", "median_grid:edge_padding", "median_grid:no_padding_edge_untouched", "pitch_measures:zero_filtered",
                     "pitch_measures:sub_one_value", "load:undefined_skipped", "load:undefined_substituted", "pitch_errors:flagged"]
 
 
@@ -173,6 +173,8 @@ def run_pitch_measures(case):
         if any(0 < abs(v) < 1 for v in vals):
             cl.add("sub_one_value")
         vals = [v for v in vals if v != 0]
+    if len(vals) >= 2 and max(vals) - min(vals) <= 1e-8:
+        cl.add("constant_track")
     if not vals:
         want = (0.0,) * 6
     else:
@@ -297,6 +299,12 @@ def row_cases(draw):
 def pm_cases(draw):
     xs = draw(series(st.one_of(st.sampled_from([0, 0, 0.0, 100, 120.5, 0.5, 0.9, 1, 250]), st.integers(0, 400),
                                st.floats(0, 500, allow_nan=False).map(lambda x: round(x, 2)))))
+    if draw(st.integers(0, 5)) == 0:
+        # a constant (or almost constant) track of a non-dyadic value: variance 0 / tiny, never negative
+        v = draw(st.sampled_from([0.1, 100.1, 0.7, 220.1, 187.3, 33.3, 99.99]))
+        xs = [v] * draw(st.integers(2, 9))
+        if draw(st.booleans()):
+            xs[-1] = v + 1e-9
     return {"series": xs, "window": draw(st.sampled_from([None, None, 0, 1, 3, 5, 4])), "filter_zero": draw(st.booleans())}
 
 
